@@ -171,6 +171,7 @@ type Profile struct {
 	GroupTrap                                                                       bool // a stop group whose members can only be removed in reverse order
 	Loose                                                                           bool // plan-all units over several vehicles (API only)
 	Metric                                                                          bool // travel durations from points in the plane, declared metric through the API
+	OneSidedRes                                                                     bool // with MultiRes: the first resource has quantities of one sign only
 	MultiRes                                                                        bool // several capacity resources, quantities of both signs, small and large vehicles
 	Trap                                                                            bool // removal trap (see Case.Trap)
 	ForceWindows                                                                    bool // windows, wait limits and a non-metric matrix always on
@@ -271,6 +272,9 @@ func genCase(rng *rand.Rand, p Profile) *Case {
 					q := -(1 + rng.Intn(5)) // JSON quantity < 0 = load increases
 					if rng.Intn(3) == 0 {
 						q = 1 + rng.Intn(5)
+					}
+					if p.OneSidedRes && r == resources[0] && q > 0 {
+						q = -q // this resource is only ever loaded: its constraint answers in another regime (and with other hints) than the others
 					}
 					s.Qty[r] = q
 				}
